@@ -12,11 +12,11 @@ use std::sync::Arc;
 use vcore::rnd;
 use vcore::Monitor;
 
-pub const RULE: &str = "seeded random histories over 4-8 consecutive epochs of 1-3 REAL signers (StateMachine + SignerRunner + real services over file-backed sqlite, real KesSignerStandard, real AggregatorHttpClient and HttpMithrilNetworkConfigurationProvider, production signature-publisher stack; sources of /repo/mithril-signer compiled through signer-shim because mithril-signer and mithril-aggregator each define a #[global_allocator]) plus 0-2 scripted honest co-signers, against the REAL aggregator of mon-agg's Sim in the same process (shared fake chain observer / immutable observer / digester), through a loopback HTTP front before the aggregator's real warp router. Events: aggregator ticks, signer ticks, epoch changes (with or without a new stake distribution), new immutable files, signer restarts / stops (whole registration windows included) / starts on their own files, aggregator restarts (registration round not yet open until its next tick) and outages, faults on individual requests (dropped request, delivered-but-reply-lost, genuine epoch-settings reply of an earlier epoch served again). Oracle over the boundary log: E1 at most one acknowledged publication and one sigma per (signer, signed entity type, beacon), byte-identical re-sends counted; a failed publication is sent again while the beacon is current; E2 every sigma verifies with mithril-stm under the key THIS signer registered (as logged, last acknowledged registration sent during epoch E-2) in the signer set / stakes computed from the logged registrations, and the real aggregator accepts it (201/202; 410 = late; any other reply to a well-formed signature while the aggregator is at epoch E or E-1 is a violation; a buffered signature must be taken over when the aggregator opens that message); E3 signatures only in ReadyToSign of the current epoch and with an eligible acknowledged registration; E4 an eligible signer has signed after 8 consecutive undisturbed ticks of an epoch (also after a restart); all certificates the aggregator sealed verify with the public verifier. Non-trivial = a signature of a real signer accepted by the aggregator in a signer history that already contained a fault / restart / stop; distinct by (history, signer, beacon).";
+pub const RULE: &str = "seeded random histories over 4-8 consecutive epochs of 1-3 REAL signers (StateMachine + SignerRunner + real services over file-backed sqlite, real KesSignerStandard, real AggregatorHttpClient and HttpMithrilNetworkConfigurationProvider, production signature-publisher stack with 1-3 attempts; sources of /repo/mithril-signer compiled through signer-shim because mithril-signer and mithril-aggregator each define a #[global_allocator]) plus 0-2 scripted honest co-signers, against the REAL aggregator of mon-agg's Sim in the same process (shared fake chain observer / immutable observer / digester), through a loopback HTTP front before the aggregator's real warp router. Events: aggregator ticks, signer ticks, epoch changes (with or without a new stake distribution), new immutable files, new blocks (CardanoTransactions enabled in half of the histories), signer restarts / stops (whole registration windows included) / starts on their own files, aggregator restarts (registration round not yet open until its next tick) and outages, faults on individual requests (dropped request, delivered-but-reply-lost, genuine epoch-settings reply of an earlier epoch served again, genuine 'registration round not yet opened' reply served again). Oracle over the boundary log: E1 at most one acknowledged publication and one sigma per (signer, signed entity type, beacon), byte-identical re-sends counted; a failed publication is sent again while the beacon is current; E2 every sigma verifies with mithril-stm under the key THIS signer registered (as logged: last acknowledged registration sent during epoch E-2) in the signer set / stakes computed from the logged registrations, and the real aggregator accepts it (201/202; 410 = late; any other reply to a well-formed signature while the aggregator is at epoch E or E-1 is a violation; a buffered signature must be taken over when the aggregator opens that very message); E3 signatures only in ReadyToSign of the current epoch and with an eligible acknowledged registration; E4 after 8 consecutive undisturbed ticks of an epoch (aggregator reachable, working, same epoch) a signer has registered for the round of the epoch and, if it holds the key in force, has signed (also after a restart); all certificates the aggregator sealed verify with the public verifier. Non-trivial = a signature of a real signer accepted (201/202) by the aggregator in a signer history that already contained a fault / restart / stop; distinct by (history, signer, beacon). evaluations = oracle judgements (registrations, signature publications, retry / hand-over / progress checks, certificates, histories).";
 
 pub const ASSUMPTIONS: &[&str] = &[
     "doubles for the Cardano node only (chain observer, immutable file observer, digester shared by both sides; dumb block scanner)",
-    "signed entity types enabled: MithrilStakeDistribution, CardanoStakeDistribution, CardanoDatabase",
+    "signed entity types enabled: MithrilStakeDistribution, CardanoStakeDistribution, CardanoDatabase, and CardanoTransactions in half of the histories (dumb block scanners fed with the same blocks on every node)",
     "restarts happen between ticks (clean stop); ticks of the different nodes do not overlap in time",
     "faults are injected per HTTP request at the front: 503 without delivery, 504 after delivery, replay of a genuine earlier epoch-settings reply",
     "the signers' key generation uses the operating system's randomness (code under test); the schedule is seeded",
@@ -27,12 +27,13 @@ fn fault_specs(rng: &mut ChaCha20Rng) -> Vec<FaultSpec> {
     let mut v = vec![];
     let n = 1 + rnd::usize_below(rng, 2);
     for _ in 0..n {
-        let f = match rnd::below(rng, 12) {
+        let f = match rnd::below(rng, 13) {
             0 => FaultSpec { on: None, kind: "drop", n: 1 + rnd::below(rng, 3) as u32 },
             1..=3 => FaultSpec { on: Some(*rnd::pick(rng, &kinds)), kind: "drop", n: 1 + rnd::below(rng, 2) as u32 },
             4..=5 => FaultSpec { on: Some(ReqKind::RegisterSigner), kind: "lose-reply", n: 1 },
             6..=8 => FaultSpec { on: Some(ReqKind::RegisterSignature), kind: "lose-reply", n: 1 + rnd::below(rng, 3) as u32 },
             9 => FaultSpec { on: None, kind: "lose-reply", n: 1 + rnd::below(rng, 2) as u32 },
+            10 => FaultSpec { on: Some(ReqKind::RegisterSigner), kind: "round-not-open", n: 1 + rnd::below(rng, 2) as u32 },
             _ => FaultSpec { on: Some(ReqKind::Settings), kind: "stale-settings", n: 1 },
         };
         v.push(f);
@@ -40,20 +41,32 @@ fn fault_specs(rng: &mut ChaCha20Rng) -> Vec<FaultSpec> {
     v
 }
 
-pub async fn one_history(mon: &mut Monitor, rng: &mut ChaCha20Rng, dir: PathBuf, hid: &str, honest: bool) -> anyhow::Result<()> {
+/// `scenario`: None = random history; "honest" = no fault at all; "missed-round" = no fault except that
+/// real signer 1 (of 2, plus one scripted co-signer) is down during the whole third epoch;
+/// "lost-registration" = no fault except that its registration requests are dropped during that epoch
+pub async fn one_history(mon: &mut Monitor, rng: &mut ChaCha20Rng, dir: PathBuf, hid: &str, scenario: Option<&str>) -> anyhow::Result<()> {
+    let honest = scenario.is_some();
+    let missed_round = scenario == Some("missed-round");
+    // "lost-registration": no fault except that every registration request of real signer 1 is dropped
+    // during the whole third epoch
+    let lost_registration = scenario == Some("lost-registration");
     let mut types = vec![SignedEntityTypeDiscriminants::CardanoStakeDistribution, SignedEntityTypeDiscriminants::CardanoDatabase];
     let with_transactions = !honest && rnd::chance(rng, 1, 2);
     if with_transactions {
         types.insert(1, SignedEntityTypeDiscriminants::CardanoTransactions);
         mon.count("histories_with_cardano_transactions");
     }
-    let mut run = Run::start(dir, rng, hid, types).await?;
+    let mut run = Run::start(dir, rng, hid, types, if missed_round || lost_registration { Some((2, 1)) } else { None }).await?;
     let n_epochs = 4 + rnd::below(rng, 5);
     let n_real = run.n_real();
     let n_scripted = run.scripted.len();
     mon.count(&format!("histories_with_{n_real}_real_signers"));
     mon.count(&format!("histories_with_{n_scripted}_scripted_signers"));
-    if honest {
+    if missed_round {
+        mon.count("histories_scripted:one_signer_down_for_one_whole_epoch");
+    } else if lost_registration {
+        mon.count("histories_scripted:registrations_of_one_signer_dropped_for_one_whole_epoch");
+    } else if honest {
         mon.count("histories_without_any_fault");
     }
     let debug = std::env::var("VERIF_DEBUG").is_ok();
@@ -61,6 +74,9 @@ pub async fn one_history(mon: &mut Monitor, rng: &mut ChaCha20Rng, dir: PathBuf,
     for epoch_i in 0..n_epochs {
         // ---- who is kept down during this whole epoch (misses the registration round)
         let mut down_for_epoch = vec![false; n_real];
+        if missed_round && epoch_i == 2 {
+            down_for_epoch[1] = true;
+        }
         if !honest && epoch_i > 0 {
             for i in 0..n_real {
                 let others = n_real + n_scripted > 1;
@@ -148,7 +164,8 @@ pub async fn one_history(mon: &mut Monitor, rng: &mut ChaCha20Rng, dir: PathBuf,
                 run.apply(&Ev::AggTick, mon).await?;
                 for i in 0..n_real {
                     if run.signers[i].is_up() {
-                        run.apply(&Ev::SignerTick { i, faults: vec![] }, mon).await?;
+                        let faults = if lost_registration && epoch_i == 2 && i == 1 { vec![FaultSpec { on: Some(ReqKind::RegisterSigner), kind: "drop", n: 3 }] } else { vec![] };
+                        run.apply(&Ev::SignerTick { i, faults }, mon).await?;
                     }
                 }
                 for j in 0..n_scripted {
